@@ -512,5 +512,23 @@ theorem rAll_fresh_eq_get (s : State K) (id : Nat) :
     rw [rAllGo_eq _ _ _ (by simp)]
     simp
 
+/-- `BlobReader::verify` rewinds: wherever the reader stands, it re-reads the whole key list -/
+theorem rVerify_eq (tbl : List (K × CRec)) (r : Reader K) :
+    (rVerify h tbl r).1 =
+      match readChunks tbl r.chunks with
+      | .error e => .error e
+      | .ok d => .ok (decide (h d = r.checksum)) := by
+  have key : (rAll tbl { r with cur := 0, bytesRead := 0 }).1 = readChunks tbl r.chunks := by
+    unfold rAll
+    rw [rAllGo_eq tbl _ { r with cur := 0, bytesRead := 0 } (by simp)]
+    simp
+  unfold rVerify
+  cases hgo : rAll tbl { r with cur := 0, bytesRead := 0 } with
+  | mk res rd =>
+    rw [hgo] at key
+    simp only at key
+    rw [← key]
+    cases res <;> rfl
+
 end
 end Neumann.Blob
